@@ -260,7 +260,7 @@ func genName(rng *rand.Rand) string {
 }
 
 func genC03(rng *rand.Rand, tier string) (cases []string) {
-	n := 4000
+	n := 10000
 	if tier == "thorough" {
 		n = 300000
 	}
